@@ -552,12 +552,13 @@ Section Access.
   Theorem access_reinvoked_at_rest c x :
     nth_error (conss s) c = Some x -> ck x = CKAccess -> attached_pc (cpcv x) = true -> acc_settled x = true ->
     resolved s = true ->
-    exists v, cpcv x = CAccCb v /\ (ac_cbcanc x = false -> v = value s /\ verr s = 0) /\ (verr s <> 0 -> ac_cbcanc x = true).
+    exists v, cpcv x = CAccCb v /\ (ac_cbcanc x = false -> ac_wpark x = false -> v = value s /\ verr s = 0) /\
+              (verr s <> 0 -> ac_cbcanc x = true \/ ac_wpark x = true).
   Proof.
     intros Hx Hk Hp Hs Er. destruct (access_mirror c x Hx Hk Hp) as [M1 _]. pose proof (run_InvK k es c x Hx) as [_ K].
     unfold acc_settled in Hs. destruct (cpcv x) as [| | |v| |] eqn:Ep; try discriminate.
     - exists v. split; [reflexivity|]. split.
-      + intros Hc. destruct (access_called_with_current_value c x v Hx Hk Ep Hc) as [_ [A2 [A3 _]]]. auto.
+      + intros Hc Hw. destruct (access_called_with_current_value c x v Hx Hk Ep Hc Hw) as [_ [A2 [A3 _]]]. auto.
       + intros He. apply (access_ctx_cancelled_on_invalidation c x v Hx Hk Ep). auto.
     - apply andb_true_iff in Hs. destruct Hs as [Hs _]. apply Nat.eqb_eq in Hs. destruct (K Hs) as [R1 _]. congruence.
   Qed.
@@ -643,7 +644,7 @@ Qed.
 Definition pinned_c10a : fixes := {| fx_wait := true; fx_nilcb := true; fx_accnonce := false |}.
 Definition c10a_witness : list ev :=
   [ESetCtx 1; EStartCons 2; EConsStep 0; EProceed 0 true; EResReturn 0 7 true 0; EStore 0; EConsStep 0;
-   EReleased 0; EProceed 1 true; EResReturn 1 7 true 0; EStore 1; ECbReturn 0 1].
+   EReleased 0; EWatch 0; EProceed 1 true; EResReturn 1 7 true 0; EStore 1; ECbReturn 0 1].
 Lemma c10a_refuted :
   let x := getc (run pinned_c10a (init false) c10a_witness) 0 in
   cpcv x = CRel 1 /\ ccanc x = false /\ ac_nonce x <> ac_snap x.
